@@ -766,6 +766,184 @@ static void run_legacyx(vfh::Rng &rng, vfh::Reporter &R, long ncases) {
   }
 }
 
+// ------------------------------------------------------------------ reuse of one object
+// One HistogramNew object lives through a script of Initialize / fill / Normalize / Clear / re-Initialize steps;
+// the shadow histogram is compared after every step. Values within the edge band and values of the two
+// suspected-defect families are not used here (they have their own families).
+struct Shadow {
+  Cfg c;
+  LD step = 1;
+  double cstep = 1;
+  std::vector<double> sh, ab;
+  bool nonneg = true, empty = true;
+};
+static bool reuse_compare(vfh::Reporter &R, HistogramNew &h, Shadow &S, const std::string &script, const std::string &after, const char *key) {
+  long n = (long)S.c.nbins;
+  if ((long)h.data().size() != n || h.getNBins() != S.c.nbins) {
+    R.violation("histnew-reuse/stale-state-after-reinitialize", "bin count differs from the last Initialize after: " + after, J().s("script", script).i("size", (long)h.data().size()).i("expected", n));
+    return false;
+  }
+  for (long i = 0; i < n; ++i) {
+    double got = h.data().y(i);
+    if (!(std::fabs(got - S.sh[i]) <= 1e-12 * S.ab[i])) {
+      R.violation(key, "bin content differs from the shadow histogram after: " + after, J().s("script", script).i("bin", i).d("got", got).d("expected", S.sh[i]));
+      return false;
+    }
+  }
+  return true;
+}
+static void run_reuse(vfh::Rng &rng, vfh::Reporter &R, long ncases) {
+  for (long ic = 0; ic < ncases; ++ic) {
+    HistogramNew h;
+    Shadow S;
+    std::ostringstream script;
+    script << std::setprecision(17);
+    bool ok = true;
+    int wmode = rng.coin(0.8) ? (int)rng.range(0, 1) : 2;  // mostly non-negative weights (integral is judged), sometimes mixed sign
+    long nsteps_done = 0, n_norm = 0, n_clear = 0, n_reinit = 0;
+    auto do_init = [&](bool first) {
+      Cfg c = gen_cfg(rng);
+      h.setPeriodic(c.periodic);
+      h.Initialize(c.min, c.max, c.nbins);
+      script << (first ? "" : " | ") << "setPeriodic(" << c.periodic << ") Initialize(" << c.min << "," << c.max << "," << c.nbins << ")";
+      S.c = c;
+      S.cstep = h.getStep();
+      S.step = step_of(c, S.cstep);
+      long n = (long)c.nbins;
+      S.sh.assign(n, 0.0); S.ab.assign(n, 0.0);
+      S.nonneg = true; S.empty = true;
+      // layout and emptiness after (re-)Initialize
+      bool bad = (long)h.data().size() != n || h.getNBins() != c.nbins || h.getMin() != c.min || h.getMax() != c.max;
+      if (!bad && n > 1 && !vfh::close(S.cstep, (double)S.step, 0, 1e-12)) bad = true;
+      for (long i = 0; !bad && i < n; ++i) {
+        LD want = (LD)c.min + (LD)i * S.step, tol = 1e-9L * (fabsl((LD)c.min) + fabsl((LD)c.max) + (LD)n * S.step);
+        if (fabsl((LD)h.data().x(i) - want) > tol || h.data().y(i) != 0.0) bad = true;
+      }
+      if (bad) { R.violation("histnew-reuse/stale-state-after-reinitialize", "size, step, centres or contents after Initialize do not correspond to the new (min,max,nbins,periodic)", J().s("script", script.str())); ok = false; }
+    };
+    auto do_fill = [&]() {
+      long nv = rng.range(1, 25);
+      script << " | Process{";
+      for (long q = 0; q < nv; ++q) {
+        double v = 0, w = 0;
+        Cls cl;
+        int guard = 0;
+        do { int kind; v = gen_value(rng, S.c, S.cstep, kind); cl = classify(S.c, S.step, v); } while ((cl.huge || cl.trigger || cl.n != 1) && ++guard < 50);
+        if (cl.huge || cl.trigger || cl.n != 1) continue;
+        w = gen_weight(rng, wmode);
+        if (wmode == 0) h.Process(v); else h.Process(v, w);
+        script << v << ":" << w << " ";
+        if (cl.out[0] != DISCARD) { S.sh[cl.out[0]] += w; S.ab[cl.out[0]] += std::fabs(w); S.empty = false; if (S.sh[cl.out[0]] < 0 || w < 0) S.nonneg = false; }
+      }
+      script << "}";
+      ok = reuse_compare(R, h, S, script.str(), "Process", "histnew-reuse/bin-content");
+    };
+    auto do_clear = [&]() {
+      h.Clear();
+      script << " | Clear()";
+      std::fill(S.sh.begin(), S.sh.end(), 0.0);
+      std::fill(S.ab.begin(), S.ab.end(), 0.0);
+      S.nonneg = true; S.empty = true;
+      ++n_clear;
+      ok = reuse_compare(R, h, S, script.str(), "Clear", "histnew-reuse/bin-content");
+      if (ok && h.getStep() != S.cstep) { R.violation("histnew-reuse/stale-state-after-reinitialize", "Clear changed the step", J().s("script", script.str())); ok = false; }
+    };
+    auto do_normalize = [&]() {
+      long n = (long)S.c.nbins;
+      bool any = false;
+      for (long i = 0; i < n; ++i) any |= (S.sh[i] != 0.0);
+      if (!any) { R.counter("reuse_normalize_of_empty_skipped"); return; }
+      h.Normalize();
+      script << " | Normalize()";
+      ++n_norm;
+      R.eval("histnew_reuse_normalize");
+      long jmax = 0;
+      double sum = 0;
+      bool neg = false;
+      for (long i = 0; i < n; ++i) { if (std::fabs(S.sh[i]) > std::fabs(S.sh[jmax])) jmax = i; neg |= S.sh[i] < 0; }
+      for (long i = 0; i < n; ++i) {
+        double a = h.data().y(i);
+        sum += a;
+        double lhs = a * S.sh[jmax], rhs = h.data().y(jmax) * S.sh[i];
+        if (!(std::fabs(lhs - rhs) <= 1e-10 * (std::fabs(lhs) + std::fabs(rhs)) + 1e-300)) {
+          R.violation("histnew-reuse/normalize-ratios", "Normalize changed bin ratios", J().s("script", script.str()).i("bin", i).d("before", S.sh[i]).d("after", a));
+          ok = false;
+          return;
+        }
+      }
+      if (neg) R.counter("reuse_normalize_negative_contents_integral_not_judged");
+      else if (!vfh::close(sum * h.getStep(), 1.0, 0, 1e-10)) {
+        R.violation("histnew-reuse/normalize-integral", "after Normalize sum*step != 1 on a re-used histogram", J().s("script", script.str()).d("integral", sum * h.getStep()).d("step", h.getStep()));
+        ok = false;
+        return;
+      }
+      // the shadow follows the observed (verified) contents
+      for (long i = 0; i < n; ++i) { S.sh[i] = h.data().y(i); S.ab[i] = std::fabs(S.sh[i]); }
+    };
+    // the scripts named in the design of the reuse family + random mixes
+    static const char *SCRIPTS[] = {"FN", "FNCFN", "FCFN", "FIFN", "FNN", "FNFN", "FNIFN", "FCIFN", "FNCFCFN", "FIFCFN", "FNFCFNN"};
+    std::string sc;
+    if (ic % 3 != 2) sc = SCRIPTS[(ic / 3 * 2 + ic % 3) % (sizeof SCRIPTS / sizeof *SCRIPTS)];
+    else { int len = (int)rng.range(3, 12); for (int q = 0; q < len; ++q) sc += "FFFNCI"[rng.next() % 6]; sc += "FN"; }
+    do_init(true);
+    for (char op : sc) {
+      if (!ok) break;
+      if (op == 'F') do_fill();
+      else if (op == 'N') do_normalize();
+      else if (op == 'C') do_clear();
+      else { do_init(false); ++n_reinit; }
+      ++nsteps_done;
+    }
+    R.eval("histnew_reuse_script:" + (ic % 3 != 2 ? sc : std::string("random")));
+    R.counter("reuse_steps", nsteps_done);
+    if (ok && (n_clear + n_reinit) > 0 && n_norm > 0) R.nontrivial(vfh::hstr(91, script.str()));
+    if (ok && R.want_sample() && sc == "FNCFN") R.sample(J().s("script", script.str()).s("result", "shadow histogram matched after every step"));
+  }
+}
+
+// legacy Histogram: a second ProcessData on the same object must give what a fresh object gives
+static void run_legacy_reuse(vfh::Rng &rng, vfh::Reporter &R, long ncases) {
+  for (long ic = 0; ic < ncases; ++ic) {
+    Histogram::options_t op;
+    op.n_ = rng.range(2, 120);
+    op.normalize_ = rng.coin();
+    op.periodic_ = rng.coin(0.3);
+    int sc = (int)rng.range(0, 3);
+    op.scale_ = sc == 0 ? "bond" : sc == 1 ? "angle" : "no";
+    LData d1 = gen_ldata(rng, sc <= 1 ? 0 : (int)rng.range(0, 2), 80), d2 = gen_ldata(rng, sc <= 1 ? 0 : (int)rng.range(0, 2), 80);
+    if (sc == 1) { for (auto *d : {&d1, &d2}) { for (auto &a : d->arrays) for (auto &x : a) x = 0.2 + std::fmod(std::fabs(x), 2.7); d->finish(); } }
+    if (d1.lo == d1.hi || d2.lo == d2.hi) continue;
+    op.auto_interval_ = rng.coin(0.6);
+    if (!op.auto_interval_) { op.min_ = std::min(d1.lo, d2.lo); op.max_ = std::max(d1.hi, d2.hi); op.extend_interval_ = rng.coin(0.3); }
+    Histogram reused(op), fresh(op);
+    legacy_run(reused, d1);
+    legacy_run(reused, d2);
+    legacy_run(fresh, d2);
+    R.eval("legacy_reuse_second_processdata");
+    R.nontrivial(vfh::hdouble(vfh::hdouble(vfh::hmix(92, (uint64_t)op.n_), d1.lo), d2.hi));
+    J wit;
+    wit.i("n", op.n_).b("normalize", op.normalize_).b("periodic", op.periodic_).s("scale", op.scale_).b("auto_interval", op.auto_interval_).b("extend_interval", op.extend_interval_).d("min", op.min_).d("max", op.max_).vec("first_data_first40", d1.flat()).vec("second_data_first40", d2.flat());
+    bool same = reused.getMin() == fresh.getMin() && reused.getMax() == fresh.getMax() && reused.getInterval() == fresh.getInterval() && reused.getPdf().size() == fresh.getPdf().size();
+    long badi = -1;
+    for (size_t i = 0; same && i < fresh.getPdf().size(); ++i) {
+      double a = reused.getPdf()[i], b = fresh.getPdf()[i];
+      if (!(a == b || (std::isnan(a) && std::isnan(b)))) { same = false; badi = (long)i; }
+    }
+    if (!same) {
+      R.violation("legacy-reuse/second-processdata-differs", "ProcessData on a re-used Histogram differs from a fresh one on the same data (stale range / contents)", wit.i("bin", badi).d("reused_min", reused.getMin()).d("fresh_min", fresh.getMin()).d("reused_max", reused.getMax()).d("fresh_max", fresh.getMax()));
+      continue;
+    }
+    // Normalize() called again on normalised contents keeps the integral at one
+    if (op.normalize_ && op.scale_ == "no") {
+      reused.Normalize();
+      double sum = 0;
+      for (double p : reused.getPdf()) sum += p;
+      R.eval("legacy_reuse_normalize_twice");
+      if (!vfh::close(sum * reused.getInterval(), 1.0, 0, 1e-10)) R.violation("legacy-reuse/normalize-twice", "second Normalize changes the integral", wit.d("integral", sum * reused.getInterval()));
+    }
+  }
+}
+
 int main(int argc, char **argv) {
   vfh::Args A(argc, argv);
   long seed = A.num("seed", 1), shard = A.num("shard", 0);
@@ -778,6 +956,7 @@ int main(int argc, char **argv) {
   else if (mode == "huge") { vfh::Rng r(s + 1313); run_huge(r, R, n); }
   else if (mode == "legacy") { vfh::Rng r(s + 13131); run_legacy(r, R, n); }
   else if (mode == "legacyx") { vfh::Rng r(s + 131313); run_legacyx(r, R, n); }
+  else if (mode == "reuse") { vfh::Rng r(s + 1313131); run_reuse(r, R, n); vfh::Rng r2(s + 13131313); run_legacy_reuse(r2, R, n / 4 + 1); }
   else if (mode == "probe") {
     // replay of one HistogramNew witness: --min --max --nbins --periodic 0|1 --v --w
     Cfg c{A.real("min", 0), A.real("max", 10), (Index)A.num("nbins", 10), A.num("periodic", 1) != 0};
